@@ -144,6 +144,139 @@ def oracle(chk, n):
         if fl.shape != mm.shape or not numpy.allclose(fl * 100 ** (mm / 5), astmod.magnitude_to_flux(0.0, b), rtol=RT, atol=0):
             bad("array:magnitude_to_flux", "magnitude_to_flux(array, %r) is not flux(0)·100^(-m/5) element-wise" % b, m=mm.tolist(), band=b)
 
+    INT_DTYPES = ["int64", "int32", "int16", "uint16", "uint32", "uint64"]
+
+    def same(a, b):
+        a, b = numpy.asarray(a, dtype=float), numpy.asarray(b, dtype=float)
+        return a.shape == b.shape and bool(numpy.all(numpy.isfinite(a))) and numpy.allclose(a, b, rtol=RT, atol=0)
+
+    def integer_typed(lam, cn2, band):
+        """INTEGER-typed arguments: altitude grids in whole metres (numpy.arange(0, 25000, 250), a column read with dtype=int),
+        wind speeds in whole m/s, relative layer weights as counts, whole magnitudes / arc-seconds / metres, 0/1 masks.  The type
+        an argument is stored in is not part of its value: every function must return what it returns for the same values as
+        float64 (to rounding), and the single-layer and axis clauses hold on integer grids.  Heights reach 25 km, wind 60 m/s."""
+        nprng = numpy.random.default_rng(rng.getrandbits(32))
+        # ---- profile integrals: integer h / v (any integer dtype that holds the values), float cn2
+        if rng.random() < 0.4:
+            step = rng.choice([100, 250, 500, 1000, 2500])
+            Hf = numpy.arange(rng.choice([0, 0, step, rng.randint(1, 500)]), 25000, step)[:rng.choice([4, 10, 40, 250])]
+            gk = "grid"
+        else:
+            Hf = numpy.sort(nprng.integers(0, 25001, rng.randint(1, 8)))
+            gk = "irregular"
+        if not Hf.any():
+            Hf[-1] = rng.randint(1, 25000)              # a profile wholly at h = 0 has no isoplanatic angle (outside the domain)
+        n = len(Hf)
+        Vf = nprng.integers(1, 61, n)
+        C = 10 ** nprng.uniform(-16, -12, n)
+        chk.count("int-dtype:heights-" + gk)
+        dts = ["int64", "int32", rng.choice(INT_DTYPES[2:])]
+        for fn, X, arg in ((ac.isoplanaticAngle, Hf, "h"), (ac.coherenceTime, Vf, "v"), (ac.rytov_variance, Hf, "h")):
+            ref = fn(C, X.astype(float), lam)
+            for dt in dts:
+                chk.count("int-dtype:" + dt)
+                try:
+                    with numpy.errstate(all="ignore"):
+                        got = fn(C, X.astype(dt), lam)
+                except Exception as ex:     # noqa: BLE001
+                    got = "raised %s: %s" % (type(ex).__name__, ex)
+                if isinstance(got, str) or not same(got, ref):
+                    bad("int-dtype:%s:%s" % (fn.__name__, arg), "%s(cn2, %s) with %s stored as %s = %r, but %r for the same values as float64 "
+                        "(%d layers up to %d)" % (fn.__name__, arg, arg, dt, got if isinstance(got, str) else float(got), float(ref), n, int(X.max())),
+                        fn=fn.__name__, cn2=C.tolist(), **{arg: X.tolist()}, dtype=dt, lamda=lam)
+                    break
+            # relative layer weights as whole numbers (counts): cn2 integer-typed as well
+            W = nprng.integers(1, 1000, n)
+            dt = rng.choice(dts)
+            refw = fn(W.astype(float), X.astype(float), lam)
+            try:
+                with numpy.errstate(all="ignore"):
+                    gotw = fn(W.astype(dt), X.astype(dt), lam)
+            except Exception as ex:     # noqa: BLE001
+                gotw = "raised %s: %s" % (type(ex).__name__, ex)
+            if isinstance(gotw, str) or not same(gotw, refw):
+                bad("int-dtype:%s:cn2" % fn.__name__, "%s(weights, %s) with integer-typed (%s) weights and %s = %r, but %r for the same "
+                    "values as float64" % (fn.__name__, arg, dt, arg, gotw if isinstance(gotw, str) else float(gotw), float(refw)),
+                    fn=fn.__name__, cn2=W.tolist(), **{arg: X.tolist()}, dtype=dt, lamda=lam)
+        # ---- single layer on an integer grid
+        hi, vi = rng.randint(1, 25000), rng.randint(1, 60)
+        dt = rng.choice(dts)
+        r0l = ac.cn2_to_r0(cn2, lam)
+        with numpy.errstate(all="ignore"):
+            ci = float(ac.isoplanaticAngle(numpy.array([cn2]), numpy.array([hi], dtype=dt), lam)) * math.pi / (180 * 3600) * hi / r0l
+            ct = float(ac.coherenceTime(numpy.array([cn2]), numpy.array([vi], dtype=dt), lam)) * vi / r0l
+        if not abs(ci - 0.314) <= 0.002:
+            bad("single-layer:isoplanatic:int-dtype", "isoplanaticAngle([cn2],[h])·h/r0 = %r, not 0.314±0.002, for h = %d stored as %s "
+                "(cn2=%r λ=%r)" % (ci, hi, dt, cn2, lam), cn2=cn2, h=hi, dtype=dt, lamda=lam)
+        if not abs(ct - 0.314) <= 0.002:
+            bad("single-layer:coherence:int-dtype", "coherenceTime([cn2],[v])·v/r0 = %r, not 0.314±0.002, for v = %d stored as %s "
+                "(cn2=%r λ=%r)" % (ct, vi, dt, cn2, lam), cn2=cn2, v=vi, dtype=dt, lamda=lam)
+        # ---- stacked profiles on ONE integer grid (shared, or repeated to the full shape) = loop over profiles on the float grid
+        lead = tuple(rng.randint(1, 3) for _ in range(rng.randint(1, 2)))
+        Cs = 10 ** nprng.uniform(-16, -12, lead + (n,))
+        dt = rng.choice(dts)
+        for fn, X in ((ac.isoplanaticAngle, Hf), (ac.coherenceTime, Vf), (ac.rytov_variance, Hf)):
+            Xi = X.astype(dt)
+            Xarg = Xi if rng.random() < 0.5 else numpy.broadcast_to(Xi, Cs.shape).copy()
+            loop = numpy.empty(lead)
+            for idx in numpy.ndindex(*lead):
+                loop[idx] = fn(Cs[idx], X.astype(float), lam)
+            with numpy.errstate(all="ignore"):
+                full = numpy.asarray(fn(Cs, Xarg, lam))
+                first = numpy.asarray(fn(numpy.moveaxis(Cs, -1, 0), Xi.reshape((n,) + (1,) * len(lead)), lam, axis=0))
+            if not same(full, loop):
+                bad("axis:%s:int-dtype" % fn.__name__, "%s on stacked profiles %s with the %s grid of shape %s differs from looping over the "
+                    "profiles with the same grid as float64" % (fn.__name__, Cs.shape, dt, Xarg.shape), fn=fn.__name__, cn2=Cs.tolist(),
+                    x=X.tolist(), dtype=dt, lamda=lam)
+            elif not same(first, loop):
+                bad("axis:%s:int-dtype" % fn.__name__, "%s with axis=0 (layers first) on the %s grid differs from looping over the profiles "
+                    "with the same grid as float64" % (fn.__name__, dt), fn=fn.__name__, cn2=Cs.tolist(), x=X.tolist(), dtype=dt, lamda=lam, axis=0)
+        # ---- the converters on whole numbers (Python int, NumPy integer scalar, integer array): value = value at the float
+        k = rng.randint(1, 9)
+        arr = nprng.integers(1, 10, rng.randint(1, 4)).astype(rng.choice(["int64", "int32"]))
+        for f, g in (("cn2_to_r0", "r0_to_cn2"), ("r0_to_cn2", "cn2_to_r0"), ("r0_to_seeing", "seeing_to_r0"),
+                     ("seeing_to_r0", "r0_to_seeing"), ("cn2_to_seeing", "seeing_to_cn2"), ("seeing_to_cn2", "cn2_to_seeing")):
+            for x, xf, tag in ((k, float(k), "int"), (numpy.int64(k), float(k), "numpy.int64"), (arr, arr.astype(float), "integer array")):
+                try:
+                    with numpy.errstate(all="ignore"):
+                        y, yf = getattr(ac, f)(x, lam), getattr(ac, f)(xf, lam)
+                        back = getattr(ac, g)(y, lam)
+                except Exception as ex:     # noqa: BLE001
+                    bad("int-dtype:" + f, "%s(%r) (%s) raised %s: %s" % (f, x, tag, type(ex).__name__, ex), f=f, x=numpy.asarray(x).tolist(), lamda=lam)
+                    continue
+                if not same(y, yf):
+                    bad("int-dtype:" + f, "%s(%r) (%s) = %r but %r at the same value as a float (λ=%r)" % (f, x, tag, y, yf, lam),
+                        f=f, x=numpy.asarray(x).tolist(), lamda=lam)
+                elif not same(back, xf):
+                    bad("inverse:int:%s∘%s" % (g, f), "%s(%s(x,λ),λ) = %r ≠ x = %r (%s)" % (g, f, back, x, tag), f=f, g=g,
+                        x=numpy.asarray(x).tolist(), lamda=lam)
+        d = rng.randint(1, 3)
+        if not same(ac.slope_variance_from_r0(k, lam, d), ac.slope_variance_from_r0(float(k), lam, float(d))):
+            bad("int-dtype:slope_variance_from_r0", "slope_variance_from_r0(%d, λ, %d) differs from the call with floats" % (k, d), r0=k, lamda=lam, d=d)
+        # ---- photometry on whole magnitudes / fluxes / 0-1 integer and boolean masks / whole seconds
+        mi, fi, ti = rng.randint(-2, 25), rng.randint(1, 10 ** 9), rng.randint(1, 100)
+        marr = nprng.integers(-2, 26, 3)
+        maski = nprng.integers(0, 2, (4, 4))
+        maski[0, 0] = 1
+        px = logu(rng, 1e-3, 1.)
+        with numpy.errstate(all="ignore"):
+            tests = [("magnitude_to_flux", astmod.magnitude_to_flux(mi, band), astmod.magnitude_to_flux(float(mi), band)),
+                     ("magnitude_to_flux", astmod.magnitude_to_flux(marr, band), astmod.magnitude_to_flux(marr.astype(float), band)),
+                     ("flux_to_magnitude", astmod.flux_to_magnitude(fi, band), astmod.flux_to_magnitude(float(fi), band)),
+                     ("photons_per_band", astmod.photons_per_band(mi, maski, px, ti, band),
+                      astmod.photons_per_band(float(mi), maski.astype(float), px, float(ti), band)),
+                     ("photons_per_band", astmod.photons_per_band(mi, maski.astype(bool), px, ti, band),
+                      astmod.photons_per_band(float(mi), maski.astype(float), px, float(ti), band)),
+                     ("photons_per_mag", astmod.photons_per_mag(mi, maski, px, 100, ti),
+                      astmod.photons_per_mag(float(mi), maski.astype(float), px, 100., float(ti)))]
+        for fn, a, b in tests:
+            if not same(a, b):
+                bad("int-dtype:" + fn, "%s on whole-number arguments (m=%d, flux=%d, t=%d, integer / boolean mask, band %s) = %r but %r "
+                    "for the same values as floats" % (fn, mi, fi, ti, band, a, b), m=mi, flux=fi, t=ti, band=band, px=px, mask=maski.tolist())
+        if not abs(astmod.flux_to_magnitude(astmod.magnitude_to_flux(mi, band), band) - mi) <= 1e-9 * max(1, abs(mi)):
+            bad("inverse:int:flux_to_magnitude∘magnitude_to_flux", "band %s, whole magnitude %d: round trip gives %r"
+                % (band, mi, astmod.flux_to_magnitude(astmod.magnitude_to_flux(mi, band), band)), band=band, m=mi)
+
     for it in range(n):
         chk.oracle_cases += 1
         cn2, lam, r0, s = logu(rng, 1e-16, 1e-11), logu(rng, 3e-7, 1e-5), logu(rng, .01, 2.), logu(rng, .1, 5.)
@@ -237,6 +370,7 @@ def oracle(chk, n):
                 "cn2=%r h=%r v=%r λ=%r" % (ci, ct, cn2, h, vv, lam), cn2=cn2, h=h, v=vv, lamda=lam)
         defaults(cn2, r0, s, m, band, h, vv, mask, px, t)
         arrays(lam)
+        integer_typed(lam, cn2, band)
         # integration axis = loop over profiles, any rank and axis
         rank = rng.randint(1, 3)
         shape = tuple(rng.randint(1, 4) for _ in range(rank))
@@ -289,6 +423,10 @@ def run(chk):
                        "single-layer clause: 0.314 ± 0.002 as the property states ('to the rounding of the published constants'); "
                        "the exact closed form 0.0581·(0.423·4π²)^0.6 is a theorem about the model, not an oracle demand",
                        "array arguments of the converters are exercised by the oracle only (ranks 1-2, scalar or array wavelength)",
+                       "integer-typed arguments (altitude grids in whole metres up to 25 km, wind in whole m/s up to 60, integer layer weights, "
+                       "whole magnitudes / fluxes / arc-seconds / metres, integer and boolean masks; int16..int64, uint16..uint64) are outside "
+                       "the model (one scalar type): the oracle demands the value of the float64 call to 1e-9 and the single-layer / axis "
+                       "clauses on integer grids",
                        "r0_from_slopes: the theorem covers its scalar kernel; the variance/mean reduction is exercised by the oracle"]
     meta = t1check.regenerate(chk)
     chk.build_and_audit("AoVerif.Props.C17", "AoVerif.Props.C17", REQUIRED)
